@@ -57,6 +57,8 @@ def templates(tier, seed):
     for et in ("h", "v", "horizontal", "vertical"):
         for s, e in (("plain", "plain"),):
             tds.append(dict(fam="hv", et=et, s=s, e=e))
+            # the edge type decides the connector kind, whatever the element is called
+            tds.append(dict(fam="hv", et=et, s=s, e=e, tag="polyline"))
     CS = ["plain", "@t", "@r", "@b", "@l", "@t:o", "@r:o", "@b:o", "@l:o", "@t:25%", "@r:25%", "@b:150%", "@l:50%"]
     for s in CS:
         for e in CS:
@@ -80,7 +82,7 @@ def templates(tier, seed):
             for order in ("kab", "akb", "kba", "rel-b", "rel-b-kab"):
                 ordered.append(dict(t, order=order))
     if tier == "quick":
-        tds = sample_quota(tds, lambda t: (t["fam"],), {"straight": 120, "hv": 4, "corner": 260}, seed)
+        tds = sample_quota(tds, lambda t: (t["fam"],), {"straight": 120, "hv": 8, "corner": 260}, seed)
         ordered = sample_quota(ordered, lambda t: (t["fam"], t["order"]), {"straight": 12, "hv": 2, "corner": 16}, seed)
     if tier == "quick":
         stray = sample_quota(stray, lambda t: (t["fam"], t["stray"]), {"straight": 10, "hv": 4}, seed)
@@ -162,7 +164,7 @@ def build(td, wrong=False):
             offinfo = ("pct", Fraction(int(td["off"][:-1]), 100))
     if td.get("stray"):
         extra += ' corner-offset="3"' if td["stray"] == "corner-offset-abs" else ' corner-offset="25%"'
-    tag = "polyline" if fam == "corner" else "line"
+    tag = "polyline" if (fam == "corner" or td.get("tag") == "polyline") else "line"
     kel = f'<{tag} id="k" start="{stxt}" end="{etxt}"{extra}/>'
     order = td.get("order", "abk")
     if order == "abk":
@@ -285,5 +287,5 @@ def build(td, wrong=False):
                 jog = minus(outer, ov) if sd in ("l", "t") else plus(outer, ov)
                 obls.append(Obl("u-jog-beyond-outermost-end", or_(ne(pts[1][ax], jog), ne(pts[2][ax], jog))))
         return obls
-    name = f"{fam}/{td.get('s')}/{td.get('e')}/{td.get('et', '')}{td.get('off', '')}/{td.get('ka', '')}" + (f"/{td['order']}" if td.get("order") else "") + (f"/{td['stray']}" if td.get("stray") else "")
+    name = f"{fam}/{td.get('s')}/{td.get('e')}/{td.get('et', '')}{td.get('off', '')}/{td.get('ka', '')}" + (f"/{td['order']}" if td.get("order") else "") + (f"/{td['stray']}" if td.get("stray") else "") + ("/polyline" if td.get("tag") == "polyline" else "")
     return Template(name, doc, vars_, check, family=fam, role=f"C13/{fam}", cap=40, seeds=seeds(vars_), explore=not needs_search)
